@@ -197,6 +197,21 @@ def rule_variants(rep, crate):
     rep.anchor(rid, 'match on syn::Fields in generate', done)
 
 
+def rule_root_retained(rep, crate):
+    rid = rep.rule('M-C19e', 'the root survives pruning: in Graph::new every call retain_states(keep, true) is dominated by an unconditional push/insert of graph.root into the work list the keep-set is computed from (the expect("Unreachable state found") of Generator::get_ident and the index expressions of the generator are justified by "every state the generator names is in the graph", which for the root rests on this)', floor=1)
+    fn = crate.fns.get('graph::Graph::new')
+    if not rep.anchor(rid, 'fn Graph::new', fn is not None):
+        return
+    keeps = [(b, t) for b, t in find_calls(fn, r'graph::Graph::retain_states$') if desc(fn, t['args'][2]) == 'const:1']
+    if not rep.anchor(rid, 'retain_states(.., true) in Graph::new', bool(keeps)):
+        return
+    roots = [(b, t) for b, t in fn.calls() if re.search(r'(Vec::<T, A>::push|HashSet::<T, S>::insert|VecDeque::<T, A>::push_back)$', fn.callee_name(t)) and len(t['args']) == 2 and re.search(r'(^|\.)root$', desc(fn, t['args'][1]))]
+    for b, t in keeps:
+        rep.inst(rid, 'retain:bb%d' % b, detail=[rb for rb, _t in roots])
+        if not any(fn.dominates_block(rb, b) for rb, _t in roots):
+            rep.viol(rid, 'root-not-retained', 'no unconditional push of graph.root dominates retain_states(.., true): for a definition whose patterns can never match the root is pruned and the generator panics ("Unreachable state found") instead of reporting an error or generating an all-error lexer', loc(fn, t['line']))
+
+
 def run(ctx, rep):
     crate = ctx.mir('ws-default')['logos_codegen']
     rule_inventory(rep, crate)
@@ -204,6 +219,7 @@ def run(ctx, rep):
     cg.rule_greedy_recursion(rep, crate)
     cg.rule_literal_escape(rep, crate)      # justifies the `expect("ASCII is always valid UTF-8")` of the inventory: the guard is byte <= 127
     rule_variants(rep, crate)
+    rule_root_retained(rep, crate)
     if ctx.tier == 'thorough':
         crate2 = ctx.mir('codegen-sm')['logos_codegen']
         rep2_before = len(rep.rules['M-C19a']['violations'])
